@@ -91,6 +91,21 @@ def int_coord_array(ctx, name, n, nominal, dtype):
     return arr
 
 
+# True: the coordinate variables carry nothing that identifies them (neutral names, projected units) and the caller
+# names them when constructing the convention: Convention(dataset, latitude=..., longitude=...)
+EXPLICIT_NAMES = False
+
+
+def _named(P, cls):
+    if not EXPLICIT_NAMES:
+        return cls(P.ds)
+    ds = P.ds.rename({'lat': 'gy', 'lon': 'gx'})
+    for name, sn in (('gy', 'projection_y_coordinate'), ('gx', 'projection_x_coordinate')):
+        ds[name].attrs.update(units='m', standard_name=sn)
+    P.ds = ds
+    return cls(ds, latitude='gy', longitude='gx')
+
+
 def build(ctx, conv, shape, *, bounds='none', as_coords=True, nan_cells=None, data=None, mesh_opts=None,
           dims=None, descending=False, coord_dtype=None):
     """Construct the dataset for `conv`.  bounds: 'none' | 'stored'.
@@ -138,7 +153,7 @@ def build(ctx, conv, shape, *, bounds='none', as_coords=True, nan_cells=None, da
             xlo, xhi = _mid1d(list(lon))
         ydim, xdim = dims or ('y', 'x')
         P.ds = builders.cf1d(ny, nx, lat=lat, lon=lon, ydim=ydim, xdim=xdim, as_coords=as_coords, data_vars=data_vars, **kw)
-        P.convention = CFGrid1D(P.ds)
+        P.convention = _named(P, CFGrid1D)
         P.shape = (ny, nx)
         P.native = lambda n: (n // nx, n % nx)
         P.corners = lambda n: [(xlo[n % nx], ylo[n // nx]), (xhi[n % nx], ylo[n // nx]),
@@ -208,7 +223,7 @@ def build(ctx, conv, shape, *, bounds='none', as_coords=True, nan_cells=None, da
         if conv == 'cf2d':
             ydim, xdim = dims or ('y', 'x')
             P.ds = builders.cf2d(ny, nx, lat=lat, lon=lon, ydim=ydim, xdim=xdim, as_coords=as_coords, data_vars=data_vars, **kw)
-            P.convention = CFGrid2D(P.ds)
+            P.convention = _named(P, CFGrid2D)
         else:
             ydim, xdim = 'j', 'i'
             P.ds = builders.shoc_simple(ny, nx, lat=lat, lon=lon, as_coords=as_coords, data_vars=data_vars, **kw)
